@@ -41,7 +41,10 @@ EXPLANATION = ("Deterministic generators: theorems for all shapes/values over an
                "Random generators: theorems about the deterministic post-processing of the captured draw matrices; the "
                "correspondence replays numpy's draws (captured by wrapping numpy.random.uniform) through the model and "
                "compares raw stored lists and the number of draws consumed (seeded reproducibility = output is a function "
-               "of the captured stream; additionally every seeded call is executed twice and must coincide).")
+               "of the captured stream; additionally every seeded call is executed twice and must coincide). After the repairs "
+               "of C20-N1/N2/N4 only the repaired behaviour is accepted; the alternative 'what the property asks' is accepted "
+               "only inside the trigger regions of the open findings A-46 / C20-N3, which the Coq check computes from the case "
+               "(first captured draw has a repeated row; request equals the tensor size).")
 
 REDUCERS = {
     "sum": "RSum", "max": "RMax", "min": "RMin", "prod": "RProd", "first": "RFirst", "last": "RLast", "len": "RLen",
